@@ -37,6 +37,8 @@ GEN3 = {
     "trans": fm([[1, 0, 0, 1], [0, 1, 0, -2], [0, 0, 1, 3], [0, 0, 0, 1]]),
     "proj2": fm([[2, 1, 0, 0], [0, 1, 1, 0], [0, 0, 1, 1], [1, 0, 1, 1]]),
 }
+GEN2["corner0"] = fm([[0, 0, 1], [0, 1, 0], [1, 0, 0]])  # swaps x and w: lower-right entry 0, origin <-> point at infinity
+GEN3["corner0"] = fm([[0, 0, 0, 1], [0, 1, 0, 0], [0, 0, 1, 0], [1, 0, 0, 0]])
 _i = X.QI(0, 1)
 GEN2["unitary"] = [[_i, F(0), F(0)], [F(0), F(1), F(0)], [F(0), F(0), F(1)]]
 GEN2["cperm"] = [[F(0), _i, F(0)], [F(1), F(0), F(0)], [F(0), F(0), F(1)]]
@@ -47,7 +49,7 @@ GEN3["cshear"] = [[F(1), F(0), _i, F(0)], [F(0), F(1), F(0), F(0)], [F(0), F(0),
 for _g in list(GEN2.values()) + list(GEN3.values()):
     assert X.det(_g) != 0
 
-PAIRS_QUICK = [("shear", "swap"), ("proj", "trans"), ("det2", "rot345"), ("detm3", "proj"), ("trans", "rot345"), ("shear", "proj2"), ("unitary", "shear"), ("cperm", "cshear"), ("det2@int", "detm3@int")]
+PAIRS_QUICK = [("shear", "swap"), ("proj", "trans"), ("det2", "rot345"), ("detm3", "proj"), ("trans", "rot345"), ("shear", "proj2"), ("unitary", "shear"), ("cperm", "cshear"), ("det2@int", "detm3@int"), ("corner0", "trans")]
 
 
 def gens(dim):
